@@ -1619,6 +1619,9 @@ func (bc *Blockchain) removeOldHeaderHashes(index uint32) time.Duration {
 		start   = time.Now()
 		till    = ((int32(index)+1)/headerBatchCount - 1) * headerBatchCount
 	)
+	// The last complete page is needed to start the node (see HeaderHashes.init),
+	// keep it even if MaxTraceableBlocks is smaller than the page.
+	till = min(till, (int32(bc.HeaderHeight()+1)/headerBatchCount-2)*headerBatchCount)
 	if till > 0 {
 		err = bc.store.SeekGC(storage.SeekRange{
 			Prefix: []byte{byte(storage.IXHeaderHashList)},
